@@ -1,1 +1,427 @@
-fn main() {}
+//! vecon — engine for C06 (rewards, fee split and the DAO field follow the issuance rules;
+//! nothing else mints).
+//!
+//! usage: vecon [--seed S] [--tier quick|thorough] [histories=N procs=P blocks=N only=I keep=1]
+//!
+//! The parent process plans the histories and shards them over child processes
+//! (`shard=i nshards=k`). A child generates each history on a builder node (gen.rs), exports
+//! one JSONL record per generated block (rec.rs) — every block B ever accepted, on every fork —
+//! and runs the offline checker /verif/oracles/econ.py (exact integer arithmetic written from
+//! RFC-0015/0019/0020/0023, sharing no code with the Rust calculators) over the file; the
+//! checker's mismatches become violations, its crash / timeout an inconclusive run.
+
+mod hgen;
+mod rec;
+
+use serde_json::{Value, json};
+use std::io::Write;
+use std::path::{Path, PathBuf};
+use std::process::{Command, Stdio};
+use std::time::{Duration, Instant};
+use vbase::{Args, Report, Rng, Scratch, Tier};
+use vnode::consensus::{self, ChainParams};
+use vnode::model::{H, hx};
+use vnode::treegen::TreeGen;
+
+const RULE: &str = "every block of long random histories (tiny epochs with remainder rewards, lowered halving interval, \
+proposals by different miners in blocks and uncles, re-proposals, commits at every window offset, forks, real NervosDAO \
+deposit/phase-1/phase-2 flows) accepted by the builder node is exported (cellbase, header dao, BlockExt.txs_fees, spent \
+cells and live-cell totals from the reference model) and recomputed by oracles/econ.py: finalised reward = primary + \
+miner share of secondary + committer shares + proposer shares of the earliest in-window proposer; dao recurrence \
+(C, AR, S, U); U == occupied capacity of the model's live cells; withdrawals pay counted*AR_w/AR_d + occupied; \
+txs_fees == recomputed fees; live capacity == C - S - not yet paid; distinct = hash of a block's economics record";
+
+fn new_report(args: &Args) -> Report {
+    let mut r = Report::new("C06", "exploration", args, RULE);
+    r.assume("the builder node B accepted every judged block with full contextual verification; the oracle judges the numbers B produced and stored, it does not re-run scripts");
+    r.assume("proposal short ids (10 bytes) do not collide within a history");
+    r.assume("epoch records (start, length, base reward, remainder) are taken as recorded by the node; their arithmetic is C07's question — here only base*length+remainder == initial >> halvings is checked");
+    r.assume("the genesis 'satoshi gift' cell counts capacity*satoshi_cell_occupied_ratio as occupied (consensus parameter)");
+    r
+}
+
+fn main() {
+    let args = Args::parse();
+    vnode::node::set_time(ChainParams::default().genesis_timestamp + 3_000_000_000);
+    let code = if args.get_str("shard").is_some() {
+        child(&args)
+    } else {
+        parent(&args)
+    };
+    vnode::node::exit(code)
+}
+
+fn oracle_path() -> PathBuf {
+    if let Ok(p) = std::env::var("VERIF_ECON_ORACLE") {
+        return PathBuf::from(p);
+    }
+    let local = Path::new(env!("CARGO_MANIFEST_DIR")).join("../../oracles/econ.py");
+    if local.exists() {
+        return local;
+    }
+    PathBuf::from("/verif/oracles/econ.py")
+}
+
+// ---------------------------------------------------------------------------------------
+// parent: shard over processes, merge, thresholds
+
+fn parent(args: &Args) -> i32 {
+    let mut report = new_report(args);
+    let tier = args.tier;
+    let n_hist = args.get_u64("histories", tier.pick(2, 40));
+    let procs = args.get_u64("procs", tier.pick(2, 10)).min(n_hist).max(1);
+    let scratch = Scratch::new("vecon");
+    let exe = std::env::current_exe().expect("current exe");
+    let watchdog = Duration::from_secs(args.get_u64("watchdog_s", tier.pick(400, 2400)));
+    let start = Instant::now();
+    let mut children = vec![];
+    for i in 0..procs {
+        let out = scratch.join(&format!("shard{i}.json"));
+        let mut cmd = Command::new(&exe);
+        cmd.arg("--seed")
+            .arg(args.seed.to_string())
+            .arg("--tier")
+            .arg(tier.as_str())
+            .arg(format!("shard={i}"))
+            .arg(format!("nshards={procs}"))
+            .arg(format!("histories={n_hist}"))
+            .arg(format!("out={}", out.display()))
+            .arg(format!("work={}", scratch.path.display()));
+        for k in ["blocks", "only", "keep", "budget_s"] {
+            if let Some(v) = args.get_str(k) {
+                cmd.arg(format!("{k}={v}"));
+            }
+        }
+        cmd.stdout(Stdio::null()).stderr(Stdio::piped());
+        match cmd.spawn() {
+            Ok(c) => children.push((i, out, Some(c))),
+            Err(e) => report.inconclusive(&format!("cannot spawn shard {i}: {e}")),
+        }
+    }
+    // wait
+    loop {
+        let mut running = 0;
+        for (_, _, c) in children.iter_mut() {
+            if let Some(ch) = c {
+                match ch.try_wait() {
+                    Ok(Some(_)) => {}
+                    Ok(None) => running += 1,
+                    Err(_) => {}
+                }
+            }
+        }
+        if running == 0 {
+            break;
+        }
+        if start.elapsed() > watchdog {
+            for (i, _, c) in children.iter_mut() {
+                if let Some(ch) = c {
+                    if let Ok(None) = ch.try_wait() {
+                        let _ = ch.kill();
+                        report.inconclusive(&format!("watchdog: shard {i} killed after {} s", watchdog.as_secs()));
+                    }
+                }
+            }
+            break;
+        }
+        std::thread::sleep(Duration::from_millis(100));
+    }
+    for (i, out, c) in children.iter_mut() {
+        let Some(ch) = c.take() else { continue };
+        let output = ch.wait_with_output();
+        let (code, stderr) = match output {
+            Ok(o) => (o.status.code(), String::from_utf8_lossy(&o.stderr).to_string()),
+            Err(e) => (None, format!("{e}")),
+        };
+        let shard: Option<Value> = std::fs::read_to_string(&*out).ok().and_then(|s| serde_json::from_str(&s).ok());
+        match (code, shard) {
+            (Some(0..=2), Some(v)) => report.merge_json(&v),
+            (code, _) => {
+                let tail: Vec<&str> = stderr.lines().rev().take(4).collect();
+                report.inconclusive(&format!(
+                    "shard {i} died (exit {:?}): {}",
+                    code,
+                    tail.into_iter().rev().collect::<Vec<_>>().join(" | ")
+                ));
+            }
+        }
+    }
+    // python assumptions are carried as counters `assume.<text>` by the shards
+    let keys: Vec<String> = report.counters.keys().filter(|k| k.starts_with("assume: ")).cloned().collect();
+    for k in keys {
+        report.assume(k.trim_start_matches("assume: "));
+        report.counters.remove(&k);
+    }
+    if args.get_str("only").is_none() {
+        requirements(&mut report, tier);
+    }
+    report.note("histories_planned", json!(n_hist));
+    report.note("processes", json!(procs));
+    report.finish(None)
+}
+
+fn requirements(r: &mut Report, tier: Tier) {
+    let q = |a: u64, b: u64| tier.pick(a, b);
+    r.require("histories_judged", q(2, 30));
+    r.require("blocks_judged", q(1_000, 30_000));
+    r.require("checked.cellbase.amount", q(800, 25_000));
+    r.require("checked.dao.recurrence", q(1_000, 30_000));
+    r.require("checked.dao.U_vs_live_cells", q(1_000, 30_000));
+    r.require("checked.ext.txs_fees", q(1_000, 30_000));
+    r.require("checked.conservation.capacity", q(1_000, 30_000));
+    r.require("epochs_crossed", q(150, 5_000));
+    r.require("halvings_seen", q(2, 100));
+    r.require("blocks_with_remainder_reward", q(50, 1_000));
+    r.require("blocks_with_uncle_proposals", q(3, 100));
+    r.require("fees_paid_proposer_ne_committer_miner", q(100, 5_000));
+    r.require("fees_first_proposed_in_uncle", q(1, 30));
+    r.require("reproposals_in_window", q(20, 1_000));
+    r.require("reproposals_not_paid", q(10, 500));
+    r.require("dao_deposits_committed", q(3, 60));
+    r.require("dao_phase1_committed", q(2, 40));
+    r.require("dao_phase2_committed", q(1, 15));
+    r.require("dao_phase2_asked_max", q(1, 5));
+    r.require("reorgs", q(10, 500));
+    r.require("chains_judged", q(10, 500));
+    // commits at the offsets of both windows
+    let mut seen_210 = 0;
+    for k in 2..=10 {
+        if r.counter(&format!("commit_offset.w2_10.{k}")) > 0 {
+            seen_210 += 1;
+        } else if tier == Tier::Thorough {
+            r.inconclusive(&format!("observed too little: no commit at offset {k} of window (2,10)"));
+        }
+    }
+    if seen_210 < 5 {
+        r.inconclusive(&format!("observed too little: commits at only {seen_210} distinct offsets of window (2,10)"));
+    }
+    for k in 1..=3 {
+        if r.counter(&format!("commit_offset.w1_3.{k}")) == 0 {
+            r.inconclusive(&format!("observed too little: no commit at offset {k} of window (1,3)"));
+        }
+    }
+}
+
+// ---------------------------------------------------------------------------------------
+// child: generate + judge the histories of one shard
+
+fn child(args: &Args) -> i32 {
+    let mut report = new_report(args);
+    let shard = args.get_u64("shard", 0);
+    let nshards = args.get_u64("nshards", 1);
+    let n_hist = args.get_u64("histories", 1);
+    let out = PathBuf::from(args.get_str("out").expect("out="));
+    let work = PathBuf::from(args.get_str("work").expect("work="));
+    let only = args.get_str("only").and_then(|s| s.parse::<u64>().ok());
+    // panics of the generator (e.g. the builder refusing a block) make that history inconclusive
+    let last_panic: std::sync::Arc<std::sync::Mutex<Option<String>>> = Default::default();
+    {
+        let lp = last_panic.clone();
+        let prev = std::panic::take_hook();
+        std::panic::set_hook(Box::new(move |info| {
+            if std::thread::current().name() == Some("main") {
+                *lp.lock().unwrap() = Some(info.to_string());
+            }
+            prev(info);
+        }));
+    }
+    for hi in 0..n_hist {
+        if hi % nshards != shard || only.map(|o| o != hi).unwrap_or(false) {
+            continue;
+        }
+        let res = std::panic::catch_unwind(std::panic::AssertUnwindSafe(|| run_history(args, hi, &work, &mut report)));
+        if res.is_err() {
+            let msg = last_panic.lock().unwrap().take().unwrap_or_default();
+            let msg: String = msg.chars().take(400).collect();
+            report.inconclusive(&format!("history {hi}: generator panicked: {msg}"));
+        }
+    }
+    report.finish(Some(&out))
+}
+
+fn run_history(args: &Args, hi: u64, work: &Path, report: &mut Report) {
+    let t0 = Instant::now();
+    let mut rng = Rng::new(args.seed).fork(0xEC06_0000 + hi);
+    let plan = hgen::plan(&mut rng, hi, args.tier, args.get_str("blocks").and_then(|s| s.parse().ok()));
+    let budget = Duration::from_secs(args.get_u64("budget_s", args.tier.pick(100, 420)));
+    let gi = consensus::build(&plan.params);
+    let mut tg = TreeGen::new(&gi, plan.tree.clone(), rng.next_u64());
+    let mut wl = hgen::Workload::new(&plan, &mut rng);
+    let path = work.join(format!("history{hi}.jsonl"));
+    let mut f = std::io::BufWriter::new(std::fs::File::create(&path).expect("create jsonl"));
+    let wr = |f: &mut std::io::BufWriter<std::fs::File>, v: &Value| {
+        serde_json::to_writer(&mut *f, v).unwrap();
+        f.write_all(b"\n").unwrap();
+    };
+    wr(&mut f, &rec::params_record(&gi, &plan, args.seed));
+    let genesis = tg.rc.genesis;
+    wr(&mut f, &rec::block_record(&tg, &wl, &genesis).record);
+    let mut cache = hgen::CacheGuard::new(args.get_u64("cache_mb", 1500) << 20);
+    let mut made = 0usize;
+    let mut reorgs = 0u64;
+    let mut chains = 0u64;
+    let mut max_height = 0u64;
+    let mut stopped = false;
+    while made < plan.n_blocks {
+        if t0.elapsed() > budget {
+            stopped = true;
+            break;
+        }
+        let tip = tg.tip();
+        let tip_n = tg.rc.get(&tip).number;
+        let parent: H = if tip_n > 1 && rng.chance(plan.fork_pm, 1000) {
+            let d = 1 + rng.below(plan.max_fork_depth.min(tip_n - 1));
+            // the chain ending at `tip` is abandoned here: it was the main chain of B until now
+            wr(&mut f, &json!({"t": "judge", "tip": vbase::hex(&tip), "number": tip_n, "reason": "before_reorg"}));
+            reorgs += 1;
+            chains += 1;
+            tg.rc.ancestor_at(&tip, tip_n - d).unwrap()
+        } else {
+            tip
+        };
+        let extras = wl.step(&tg, &parent, &mut rng);
+        let x = tg.extend_ex(&parent, &extras);
+        hgen::adopt_uncle_proposals(&mut tg, &x);
+        let s = rec::block_record(&tg, &wl, &x);
+        cache.after_block(&mut tg, &x);
+        wr(&mut f, &s.record);
+        report.distinct(s.econ_hash);
+        max_height = max_height.max(tg.rc.get(&x).number);
+        made += 1;
+    }
+    let tip = tg.tip();
+    wr(&mut f, &json!({"t": "judge", "tip": vbase::hex(&tip), "number": tg.rc.get(&tip).number, "reason": "final"}));
+    chains += 1;
+    f.flush().unwrap();
+    drop(f);
+    let gen_s = t0.elapsed().as_secs_f64();
+    if stopped {
+        report.count("histories_stopped_by_budget");
+    }
+    for (k, v) in tg.stats.clone() {
+        report.count_n(&format!("gen.{k}"), v);
+    }
+    report.count_n("gen.blocks", made as u64);
+    report.count_n("gen.whale_txs", wl.whales_built);
+    report.count_n("reorgs", reorgs);
+    report.count_n("gen.model_cache_resets", cache.resets);
+    let tip_hex = hx(&tip);
+    drop(tg);
+
+    // judge offline
+    let t1 = Instant::now();
+    let timeout = Duration::from_secs(args.tier.pick(120, 600));
+    match run_python(&path, timeout) {
+        Err(e) => report.inconclusive(&format!("history {hi}: oracle econ.py {e}")),
+        Ok(summary) => {
+            report.count("histories_judged");
+            report.count_n("chains_judged", chains);
+            if let Some(c) = summary["checked"].as_object() {
+                for (k, v) in c {
+                    let n = v.as_u64().unwrap_or(0);
+                    report.evals(n);
+                    report.count_n(&format!("checked.{k}"), n);
+                }
+            }
+            if let Some(c) = summary["counts"].as_object() {
+                for (k, v) in c {
+                    report.count_n(k, v.as_u64().unwrap_or(0));
+                }
+            }
+            if let Some(a) = summary["assumptions"].as_array() {
+                for s in a {
+                    if let Some(s) = s.as_str() {
+                        report.assume(s);
+                        // carried to the parent through the counters
+                        if report.counter(&format!("assume: {s}")) == 0 {
+                            report.count(&format!("assume: {s}"));
+                        }
+                    }
+                }
+            }
+            let replay = format!(
+                "cd /verif/harness && cargo run --offline -p vecon -- --seed {} --tier {} only={} keep=1   # keeps /dev/shm/vecon-keep-seed{}-h{}.jsonl for python3 /verif/oracles/econ.py",
+                args.seed, args.tier.as_str(), hi, args.seed, hi
+            );
+            if let Some(ms) = summary["mismatches"].as_array() {
+                for m in ms {
+                    let rule = m["rule"].as_str().unwrap_or("oracle.unknown_rule");
+                    let detail = format!(
+                        "history {hi} block #{} {}: expected {} actual {} ({})",
+                        m["block"], m["hash"].as_str().unwrap_or(""), m["expected"], m["actual"],
+                        m["detail"].as_str().unwrap_or("")
+                    );
+                    report.violation(
+                        rule,
+                        detail,
+                        json!({"seed": args.seed, "tier": args.tier.as_str(), "history": hi, "plan": format!("{plan:?}"),
+                               "mismatch": m, "replay": replay}),
+                    );
+                }
+            }
+            // occurrences beyond the listed ones
+            if let Some(c) = summary["mismatch_counts"].as_object() {
+                for (k, v) in c {
+                    let listed = summary["mismatches"].as_array().map(|a| a.iter().filter(|m| m["rule"] == *k).count()).unwrap_or(0) as u64;
+                    let n = v.as_u64().unwrap_or(0);
+                    if n > listed {
+                        report.count_n(&format!("violation::{k}"), n - listed);
+                    }
+                }
+            }
+            if report.samples.len() < report.max_samples {
+                report.sample(json!({"history": hi, "params": summary["params"], "blocks": made, "height": max_height,
+                    "tip": tip_hex, "gen_s": gen_s, "oracle_s": t1.elapsed().as_secs_f64(),
+                    "counts": summary["counts"], "sample_block": summary["sample_block"]}));
+            }
+        }
+    }
+    if args.get_str("keep").is_some() {
+        let _ = std::fs::copy(&path, format!("/dev/shm/vecon-keep-seed{}-h{}.jsonl", args.seed, hi));
+    }
+    let _ = std::fs::remove_file(&path);
+}
+
+fn run_python(file: &Path, timeout: Duration) -> Result<Value, String> {
+    let oracle = oracle_path();
+    let mut child = Command::new("python3")
+        .arg(&oracle)
+        .arg(file)
+        .stdout(Stdio::piped())
+        .stderr(Stdio::piped())
+        .spawn()
+        .map_err(|e| format!("cannot start: {e}"))?;
+    let mut so = child.stdout.take().unwrap();
+    let mut se = child.stderr.take().unwrap();
+    let t_out = std::thread::spawn(move || {
+        let mut s = String::new();
+        let _ = std::io::Read::read_to_string(&mut so, &mut s);
+        s
+    });
+    let t_err = std::thread::spawn(move || {
+        let mut s = String::new();
+        let _ = std::io::Read::read_to_string(&mut se, &mut s);
+        s
+    });
+    let start = Instant::now();
+    let status = loop {
+        match child.try_wait() {
+            Ok(Some(st)) => break st,
+            Ok(None) => {
+                if start.elapsed() > timeout {
+                    let _ = child.kill();
+                    let _ = child.wait();
+                    return Err(format!("timed out after {} s", timeout.as_secs()));
+                }
+                std::thread::sleep(Duration::from_millis(20));
+            }
+            Err(e) => return Err(format!("wait: {e}")),
+        }
+    };
+    let out = t_out.join().unwrap_or_default();
+    let err = t_err.join().unwrap_or_default();
+    if !status.success() {
+        return Err(format!("crashed: {}", err.lines().last().unwrap_or("")));
+    }
+    serde_json::from_str::<Value>(out.trim()).map_err(|e| format!("printed an unparsable summary: {e}"))
+}
